@@ -103,8 +103,8 @@ mod verif_rp_c10_session {
         // the side under test may have ended (and closed the stream) before the whole script is written: a closed pipe is not a finding
         let _ = alice_writer.write_all(&bytes_of(ctx, seq, cut)).await;
         let _ = alice_writer.shutdown().await;
-        let joined = tokio::time::timeout(Duration::from_secs(10), task).await;
-        let joined = match joined { Ok(j) => j, Err(_) => panic!("WITNESS {what}: still waiting after 10 s") };
+        let joined = tokio::time::timeout(Duration::from_secs(40), task).await;
+        let joined = match joined { Ok(j) => j, Err(_) => panic!("WITNESS {what}: still waiting after 40 s") };
         let (res, ns, _outcome) = match joined { Ok(r) => r, Err(e) => panic!("WITNESS {what}: panicked ({e})") };
         // "the accepting side can always report its outcome": once a request was allowed, the document it was for is known, whatever happens next
         if cb == Cb::Allow && !(cut && seq.len() == 1) {
@@ -113,7 +113,7 @@ mod verif_rp_c10_session {
         }
         // what the acceptor wrote (its writer is dropped with the finished task): a declined request must have been answered with an Abort frame
         let mut written = vec![];
-        let _ = tokio::time::timeout(Duration::from_secs(10), alice_reader.read_to_end(&mut written)).await;
+        let _ = tokio::time::timeout(Duration::from_secs(40), alice_reader.read_to_end(&mut written)).await;
         let mut buf = BytesMut::from(&written[..]);
         let mut replies = vec![];
         while let Ok(Some(m)) = SyncCodec.decode(&mut buf) { replies.push(m); }
@@ -121,7 +121,7 @@ mod verif_rp_c10_session {
             let want = if cb == Cb::RejectNotFound { AbortReason::NotFound } else { AbortReason::AlreadySyncing };
             assert!(matches!(replies.as_slice(), [Message::Abort { reason }] if *reason == want), "WITNESS {what}: the declined peer was not sent exactly one Abort({want:?}) frame, it received {replies:?}");
         }
-        let mut st = match tokio::time::timeout(Duration::from_secs(10), handle.shutdown()).await {
+        let mut st = match tokio::time::timeout(Duration::from_secs(40), handle.shutdown()).await {
             Ok(Ok(st)) => st,
             other => panic!("WITNESS {what}: the store actor does not shut down afterwards ({:?})", other.map(|r| r.map(|_| ()))),
         };
@@ -155,7 +155,7 @@ mod verif_rp_c10_session {
         let (_bob_reader, mut bob_writer) = tokio::io::split(bob_io);
         let _ = bob_writer.write_all(&bytes_of(ctx, seq, cut)).await;
         let _ = bob_writer.shutdown().await;
-        let joined = match tokio::time::timeout(Duration::from_secs(10), task).await { Ok(j) => j, Err(_) => panic!("WITNESS {what}: still waiting after 10 s") };
+        let joined = match tokio::time::timeout(Duration::from_secs(40), task).await { Ok(j) => j, Err(_) => panic!("WITNESS {what}: still waiting after 40 s") };
         let res = match joined { Ok(r) => r, Err(e) => panic!("WITNESS {what}: panicked ({e})") };
         if rep != Rep::Syncing { assert!(res.is_err(), "WITNESS {what}: replica is not syncing but the session reports success {res:?}"); }
         // the reply to the Init frame is always read: if it is undecodable, cut short or not a reply at all the session must not report success
@@ -163,7 +163,7 @@ mod verif_rp_c10_session {
             assert!(res.is_err(), "WITNESS {what}: the first reply is broken or not a reply, but the initiating side reports success {res:?}");
         }
         if matches!(seq.first(), Some(Fr::Abort)) && rep == Rep::Syncing && !(cut && seq.len() == 1) { assert!(matches!(&res, Err(e) if e.starts_with("RemoteAbort")), "WITNESS {what}: remote abort not reported: {res:?}"); }
-        let mut st = match tokio::time::timeout(Duration::from_secs(10), handle.shutdown()).await {
+        let mut st = match tokio::time::timeout(Duration::from_secs(40), handle.shutdown()).await {
             Ok(Ok(st)) => st,
             other => panic!("WITNESS {what}: the store actor does not shut down afterwards ({:?})", other.map(|r| r.map(|_| ()))),
         };
